@@ -129,6 +129,9 @@ Definition skipped_before (cs : list nat) (mb : list msg) : Prop :=
   forall r c t, nth_recv written r = Some (c, t) ->
   forall j m, j < cur_get r cs -> nth_error mb j = Some m -> accepts r c t m = VdNil.
 
+(* cursors never run past the end of the mailbox *)
+Definition cursors_le (cs : list nat) (mb : list msg) : Prop := forall r, cur_get r cs <= length mb.
+
 Definition receiving_inv (cs : list nat) (mb : list msg) (rcv : option (nat * msg)) : Prop :=
   match rcv with
   | None => True
@@ -140,7 +143,8 @@ Definition sel_inv (s : sel_state) (mb : list msg) : Prop :=
   ss_sources s = written /\
   length (ss_cursors s) = count_recv written /\
   skipped_before (ss_cursors s) mb /\
-  receiving_inv (ss_cursors s) mb (ss_receiving s).
+  receiving_inv (ss_cursors s) mb (ss_receiving s) /\
+  cursors_le (ss_cursors s) mb.
 
 Definition Inv (st : proc) : Prop :=
   match p_sel st with
@@ -180,6 +184,7 @@ Record live_ok (r : nat) (s : sel_state) : Prop := {
   lo_agree : forall r', r <= r' -> cur_get r' (ss_cursors s) = cur_get r' (ss_cursors s0);
   lo_skipped : skipped_before (ss_cursors s) mb;
   lo_rinv : receiving_inv (ss_cursors s) mb (ss_receiving s);
+  lo_le : cursors_le (ss_cursors s) mb;
   lo_rcv : (ss_receiving s = ss_receiving s0 /\ forall r0 m0, ss_receiving s0 = Some (r0, m0) -> r <= r0) \/
            (ss_receiving s = None /\ forall r0 m0, ss_receiving s0 = Some (r0, m0) -> r0 < r);
 }.
@@ -189,13 +194,24 @@ Definition good (s s' : sel_state) : Prop :=
   ss_sources s' = ss_sources s /\ ss_start s' = ss_start s /\
   length (ss_cursors s') = count_recv written /\
   skipped_before (ss_cursors s') mb /\
-  receiving_inv (ss_cursors s') mb (ss_receiving s').
+  receiving_inv (ss_cursors s') mb (ss_receiving s') /\
+  cursors_le (ss_cursors s') mb.
+
+Lemma cursors_le_set cs r v : cursors_le cs mb -> v <= length mb -> cursors_le (set_nth r v cs) mb.
+Proof.
+  intros Hle Hv r'. destruct (Nat.eq_dec r r') as [<-|Hne].
+  - destruct (Nat.lt_ge_cases r (length cs)) as [Hl|Hg].
+    + rewrite cur_get_set_eq; auto.
+    + unfold cur_get. rewrite nth_overflow; [lia|]. rewrite length_set_nth. exact Hg.
+  - rewrite cur_get_set_neq; auto.
+Qed.
 
 Lemma scan_mailbox_ok r c t s :
   nth_recv written r = Some (c, t) ->
   length (ss_cursors s) = count_recv written ->
   skipped_before (ss_cursors s) mb ->
   receiving_inv (ss_cursors s) mb (ss_receiving s) ->
+  cursors_le (ss_cursors s) mb ->
   ss_receiving s = None \/ (exists r0 m0, ss_receiving s = Some (r0, m0) /\ r0 <> r) ->
   match scan_mailbox r c t s0 s mb with
   | RComplete v mb' => exists m, v = VMsg m /\ pick_msg r c t mb = Picked m mb'
@@ -209,7 +225,7 @@ Lemma scan_mailbox_ok r c t s :
   | RPanic _ => False
   end.
 Proof.
-  intros Hsrc Hlen Hsk Hrinv Hrcv.
+  intros Hsrc Hlen Hsk Hrinv Hcle Hrcv.
   pose proof (nth_recv_lt _ _ _ Hsrc) as Hrlt.
   unfold scan_mailbox.
   set (cur := cur_get r (ss_cursors s)).
@@ -239,6 +255,8 @@ Proof.
            ++ rewrite cur_get_set_eq in Hj by lia. rewrite Hsrc in Hsrc1. inversion Hsrc1; subst. eauto.
            ++ rewrite cur_get_set_neq in Hj by auto. eapply Hsk; eauto.
         -- exists c. rewrite cur_get_set_eq by lia. auto.
+        -- apply cursors_le_set; auto.
+           assert (cur + k < length mb) by (apply nth_error_Some; congruence). lia.
       * exists m. split; [reflexivity|]. intros e He.
         eapply pick_err_at; eauto. unfold SelectSpec.accepts. rewrite Hc. exact He.
   - apply scan_notfound in Escan. destruct Escan as (Hall & Hc').
@@ -260,7 +278,15 @@ Proof.
       - destruct Hrcv as [Hn|(r0 & m0 & Hs & Hne)].
         + rewrite Hn. exact I.
         + rewrite Hs in Hrinv |- *. unfold receiving_inv in Hrinv |- *. destruct Hrinv as (c0 & H1 & H2 & H3).
-          exists c0. rewrite cur_get_set_neq by auto. auto. }
+          exists c0. rewrite cur_get_set_neq by auto. auto.
+      - apply cursors_le_set; auto. rewrite Hc'.
+        destruct (skipn cur mb) as [|a l] eqn:Esk; [apply Hcle|].
+        assert (Hlen_sk : length (skipn cur mb) = length mb - cur) by apply skipn_length.
+        rewrite Esk in Hlen_sk.
+        assert (length mb > cur).
+        { destruct (Nat.lt_ge_cases cur (length mb)); auto.
+          assert (skipn cur mb = []) by (apply skipn_nil_iff; lia). congruence. }
+        cbn [length] in Hlen_sk |- *. lia. }
     assert (Hgood_id : good s s).
     { unfold good. repeat split; auto. }
     destruct (Nat.ltb (cur_get r (ss_cursors s0)) c') eqn:Elt.
@@ -272,11 +298,11 @@ Qed.
 
 Lemma good_trans s s1 s2 : good s s1 -> good s1 s2 -> good s s2.
 Proof.
-  unfold good. intros (A1 & A2 & _) (B1 & B2 & B3 & B4 & B5). repeat split; auto; congruence.
+  unfold good. intros (A1 & A2 & _) (B1 & B2 & B3 & B4 & B5 & B6). repeat split; auto; congruence.
 Qed.
 
 Lemma live_ok_good r s : live_ok r s -> good s s.
-Proof. intros [H1 H2 H3 H4 H5]. unfold good. repeat split; auto. Qed.
+Proof. intros [H1 H2 H3 H4 H5 H6]. unfold good. repeat split; auto. Qed.
 
 Lemma handle_select_receive_ok r c t s :
   nth_recv written r = Some (c, t) ->
@@ -293,7 +319,7 @@ Lemma handle_select_receive_ok r c t s :
 Proof.
   intros Hsrc Hlive.
   pose proof (nth_recv_lt _ _ _ Hsrc) as Hrlt.
-  destruct Hlive as [Hlen Hagree Hsk Hrinv Hlr].
+  destruct Hlive as [Hlen Hagree Hsk Hrinv Hcle Hlr].
   unfold handle_select_receive.
   (* the plain path: scan from the live state *)
   assert (Hplain : (ss_receiving s = None \/ exists r0 m0, ss_receiving s = Some (r0, m0) /\ r0 <> r) ->
@@ -308,10 +334,10 @@ Proof.
                    | RPanic _ => False
                    end).
   { intros Hrcv Hne.
-    pose proof (scan_mailbox_ok r c t s Hsrc Hlen Hsk Hrinv Hrcv) as H.
+    pose proof (scan_mailbox_ok r c t s Hsrc Hlen Hsk Hrinv Hcle Hrcv) as H.
     destruct (scan_mailbox r c t s0 s mb) as [v mb'|s'|s'|e s'|n]; auto.
     destruct H as (Hp & Hg & Hcur & Hr). split; [exact Hp|]. split; [exact Hg|].
-    destruct Hg as (G1 & G2 & G3 & G4 & G5).
+    destruct Hg as (G1 & G2 & G3 & G4 & G5 & G6).
     constructor; auto.
     - intros r' Hle. rewrite Hcur by lia. apply Hagree. lia.
     - rewrite Hr. destruct Hlr as [(He & Hle)|(He & Hlt)].
@@ -351,11 +377,14 @@ Proof.
             + eapply Hsk; eauto. lia.
           - rewrite cur_get_set_neq in Hj by auto. eapply Hsk; eauto. }
         assert (Hri2 : receiving_inv (ss_cursors s2) mb (ss_receiving s2)) by exact I.
-        pose proof (scan_mailbox_ok r c false s2 Hsrc Hlen2 Hsk2 Hri2 (or_introl eq_refl)) as H.
+        assert (Hcle2 : cursors_le (ss_cursors s2) mb).
+        { unfold s2, with_receiving, with_cursors; cbn [ss_cursors]. apply cursors_le_set; auto.
+          assert (cur_get r (ss_cursors s) < length mb) by (apply nth_error_Some; congruence). lia. }
+        pose proof (scan_mailbox_ok r c false s2 Hsrc Hlen2 Hsk2 Hri2 Hcle2 (or_introl eq_refl)) as H.
         destruct (scan_mailbox r c false s0 s2 mb) as [v mb'|s'|s'|e s'|n]; auto.
         destruct H as (Hp & Hg & Hcur & Hr). split; [exact Hp|]. split.
            ++ exact Hg.
-           ++ destruct Hg as (G1 & G2 & G3 & G4 & G5). constructor; auto.
+           ++ destruct Hg as (G1 & G2 & G3 & G4 & G5 & G6). constructor; auto.
               ** intros r' Hle. rewrite Hcur by lia.
                  unfold s2, with_receiving, with_cursors; cbn [ss_cursors].
                  rewrite cur_get_set_neq by lia. apply Hagree. lia.
